@@ -400,15 +400,22 @@ func TestC25(t *testing.T) {
 					return p
 				}
 				q := append([]byte(nil), p...)
+				// the FIRST record of this transport write is the one that is tampered with (a
+				// write may carry several: TLS 1.0 CBC splits application data 1/n-1, and the
+				// one-byte record in front is a record "before" the second one)
+				first := len(q)
+				if rl := 5 + (int(q[3])<<8 | int(q[4])); rl >= 7 && rl < len(q) {
+					first = rl
+				}
 				if j.scenario == "flip" {
-					pos := 5 + rg.Intn(len(q)-5)
+					pos := 5 + rg.Intn(first-5)
 					q[pos] ^= 1 << uint(rg.Intn(8))
 					return q
 				}
 				// truncate the record and cut the connection afterwards
-				cut := 1 + rg.Intn(len(q)-6)
+				cut := 1 + rg.Intn(first-6)
 				go func() { time.Sleep(20 * time.Millisecond); wend.Close() }()
-				return q[:len(q)-cut]
+				return q[:first-cut]
 			}
 			x := pump(w, rd, chunks, bufs, func(k int) { written.Store(int32(k)) })
 			check(dir, x, true, intact)
